@@ -352,4 +352,171 @@ theorem graphFinderWith_rowspace (inv inv' : Nat → Adj → Option Adj) (m0 m0'
   exact hadj i j hi hj
 
 end S2G
+
+/-! ### `_phase_correction` and the whole conversion -/
+
+/-- the rows of one generating set, as combinations of the rows of another generating set of the same group -/
+theorem bspan_of_spanEq (t t' : STab) (hs : SpanEq t t') (i : Nat) (hi : i < t.n) :
+    BSpan t.n t.n (XZ.ofSTab t).x (XZ.ofSTab t).z ((XZ.ofSTab t').x i) ((XZ.ofSTab t').z i) :=
+  spn_bspan t (t'.row i) (hs.sup _ (spn_gen t' i (hs.n_eq ▸ hi)))
+
+/-- the sign-fixing `Z` gates depend only on the group of the input (same target graph, same local-Clifford gates) -/
+theorem phaseCorrection_gauge (t t' : STab) (hg : t.Good) (hg' : t'.Good) (hs : SpanEq t t') (g : GraphFinderOut)
+    (A : AfterLC t g) (zs zs' : List Gate)
+    (e : phaseCorrection t (graphSTab t.n g.adj.f) (lcGates g.hpos g.zdiag) = .ok zs)
+    (e' : phaseCorrection t' (graphSTab t.n g.adj.f) (lcGates g.hpos g.zdiag) = .ok zs') : zs = zs' := by
+  obtain ⟨Awf, _, Asym, _, _, Afull⟩ := A
+  generalize lcGates g.hpos g.zdiag = gates0 at *
+  obtain ⟨tab1, tab2, newTab, xinv, c1, c2, c3, c4, ezs⟩ := phaseCorrection_unfold _ _ _ _ e
+  obtain ⟨tab1', tab2', newTab', xinv', c1', c2', c3', c4', ezs'⟩ := phaseCorrection_unfold _ _ _ _ e'
+  have h22 : tab2 = tab2' := by rw [c2] at c2'; injection c2' with h
+  subst h22
+  obtain ⟨s1, g1⟩ := canonicalForm_spanEq t tab1 hg c1
+  obtain ⟨s1', g1'⟩ := canonicalForm_spanEq t' tab1' hg' c1'
+  have n1 : tab1.n = t.n := s1.n_eq.symm
+  have s11 : SpanEq tab1 tab1' := (s1.symm.trans hs).trans s1'
+  have wf1 : ∀ g', g' ∈ gates0 → g'.WF tab1.n := fun g' h => n1 ▸ Awf g' h
+  have wf1' : ∀ g', g' ∈ gates0 → g'.WF tab1'.n := fun g' h => s11.n_eq ▸ wf1 g' h
+  have tr0 := tracks_runCircuit tab1 g1 gates0 wf1
+  have tr0' := tracks_runCircuit tab1' g1' gates0 wf1'
+  have sRR : SpanEq (tab1.runCircuit gates0) (tab1'.runCircuit gates0) := runCircuit_spanEq tab1 tab1' gates0 wf1 s11 g1 g1'
+  obtain ⟨s3, g3⟩ := canonicalForm_spanEq _ newTab tr0.good c3
+  obtain ⟨s3', g3'⟩ := canonicalForm_spanEq _ newTab' tr0'.good c3'
+  have sNN : SpanEq newTab newTab' := (s3.symm.trans sRR).trans s3'
+  have hrows := canon_unique newTab newTab' (canonicalForm_canon _ _ c3) (canonicalForm_canon _ _ c3') g3 g3' sNN
+  have nN : newTab.n = t.n := by rw [← s3.n_eq, runCircuit_n]; exact n1
+  -- the X parts of both canonical forms are the identity, so both inverses are the identity
+  have s20 : SpanEq (t.runCircuit gates0) (tab1.runCircuit gates0) := runCircuit_spanEq t tab1 gates0 Awf s1 hg g1
+  have n0 : (tab1.runCircuit gates0).n = t.n := by rw [runCircuit_n]; exact n1
+  have hK : ∀ j, j < (tab1.runCircuit gates0).n →
+      ∃ p, (tab1.runCircuit gates0).Spn p ∧ ∀ k, k < (tab1.runCircuit gates0).n → p.x k = decide (k = j) := by
+    intro j hj
+    rw [n0] at hj
+    obtain ⟨p, hp, hpx⟩ := Afull j hj
+    exact ⟨p, s20.sub p hp, fun k hk => hpx k (n0 ▸ hk)⟩
+  obtain ⟨c, ec, _, _, _, xc⟩ := canonicalForm_fullX (tab1.runCircuit gates0) tr0.good hK
+  have hcn : c = newTab := by rw [c3] at ec; injection ec with ec; exact ec.symm
+  subst hcn
+  rw [n0] at xc
+  have idX : ∀ (T : STab), T.n = t.n → (∀ i k, i < t.n → k < t.n → (T.row i).x k = decide (k = i)) → ∀ M,
+      gf2Inv T.n (fun i j => (T.row i).x j) = some M → ∀ i j, i < t.n → j < t.n → M.f i j = decide (i = j) := by
+    intro T hT hx M hM
+    obtain ⟨M0, e0, h0⟩ := gf2Inv_id T.n (fun i j => (T.row i).x j) (fun i j hi hj => by
+      rw [hT] at hi hj
+      rw [hx i j hi hj]
+      by_cases h : i = j
+      · subst h; simp
+      · have : ¬ (j = i) := fun e => h e.symm
+        simp [h, this])
+    rw [hM] at e0
+    injection e0 with e0
+    subst e0
+    rw [hT] at h0
+    exact h0
+  have hx1 : ∀ i k, i < t.n → k < t.n → (c.row i).x k = decide (k = i) := fun i k hi hk => xc i k (nN ▸ hi) hk
+  have hx2 : ∀ i k, i < t.n → k < t.n → (newTab'.row i).x k = decide (k = i) := by
+    intro i k hi hk
+    rw [← ((hrows i (nN ▸ hi)).1 k (nN ▸ hk)).1]
+    exact hx1 i k hi hk
+  have nN' : newTab'.n = t.n := sNN.n_eq.symm.trans nN
+  have hM1 := idX c nN hx1 xinv c4
+  have hM2 := idX newTab' nN' hx2 xinv' c4'
+  rw [ezs, ezs', nN, nN']
+  congr 1
+  apply List.filter_congr
+  intro i hi
+  have hi' : i < t.n := List.mem_range.mp hi
+  apply parityTo_congr
+  intro k hk
+  rw [hM1 i k hi' hk, hM2 i k hi' hk, (hrows k (nN ▸ hk)).2.1]
+
+/-- another generating set (real, commuting, `n` rows) of the group of a stabilizer state is independent too -/
+theorem indep_of_spanEq (t t' : STab) (hn : 0 < t.n) (hg : t.Good) (hg' : t'.Good) (hi : Indep (XZ.ofSTab t)) (hs : SpanEq t t') :
+    Indep (XZ.ofSTab t') := by
+  obtain ⟨g, eg⟩ := graphFinderWith_complete gf2InvF (XZ.ofSTab t) hn (gf2InvF_ok t.n) (comm_ofSTab t hg) hi
+  have spec := graphFinderWith_spec gf2InvF _ g eg
+  obtain ⟨Awf, _, _, _, _, Afull⟩ := afterLC_of_spec t hg.real g spec
+  have hnn : t'.n = t.n := hs.n_eq.symm
+  have Awf' : ∀ g', g' ∈ lcGates g.hpos g.zdiag → g'.WF t'.n := fun g' h => hnn ▸ Awf g' h
+  have sRR := runCircuit_spanEq t t' (lcGates g.hpos g.zdiag) Awf hs hg hg'
+  have nT : (t'.runCircuit (lcGates g.hpos g.zdiag)).n = t.n := by rw [runCircuit_n]; exact hnn
+  have hfull : FullX (t'.runCircuit (lcGates g.hpos g.zdiag)) := by
+    intro j hj
+    rw [nT] at hj
+    obtain ⟨p, hp, hpx⟩ := Afull j hj
+    exact ⟨p, sRR.sub p hp, fun k hk => hpx k (nT ▸ hk)⟩
+  have hind := indep_of_fullX _ hfull
+  intro c hc i hi'
+  have hn0 : (XZ.ofSTab t').n = t.n := hnn
+  rw [hn0] at hc hi'
+  have hnT : (XZ.ofSTab (t'.runCircuit (lcGates g.hpos g.zdiag))).n = t.n := nT
+  apply hind c _ i (by rw [hnT]; exact hi')
+  intro j hj
+  rw [hnT] at hj ⊢
+  -- bits of the transformed rows
+  have rowx : ∀ m, m < t.n → ((t'.runCircuit (lcGates g.hpos g.zdiag)).row m).x j =
+      hx g.hpos (t'.row m).x (t'.row m).z j := by
+    intro m hm
+    have er := runCircuit_row t' _ Awf' m (hnn ▸ hm)
+    rw [hnn] at er
+    rw [(er.1 j hj).1, (actCirc_lcGates_bits g.hpos g.zdiag spec.hpos_nodup spec.zdiag_nodup (t'.row m) j).1]
+  have rowz : ∀ m, m < t.n → ((t'.runCircuit (lcGates g.hpos g.zdiag)).row m).z j =
+      xor (hx g.hpos (t'.row m).z (t'.row m).x j) (g.zdiag.contains j && hx g.hpos (t'.row m).x (t'.row m).z j) := by
+    intro m hm
+    have er := runCircuit_row t' _ Awf' m (hnn ▸ hm)
+    rw [hnn] at er
+    rw [(er.1 j hj).2, (actCirc_lcGates_bits g.hpos g.zdiag spec.hpos_nodup spec.zdiag_nodup (t'.row m) j).2.1]
+  have sx : parityTo t.n (fun m => c m && hx g.hpos (t'.row m).x (t'.row m).z j) = false := by
+    simp only [hx]
+    split
+    · exact (hc j hj).2
+    · exact (hc j hj).1
+  have sz : parityTo t.n (fun m => c m && hx g.hpos (t'.row m).z (t'.row m).x j) = false := by
+    simp only [hx]
+    split
+    · exact (hc j hj).1
+    · exact (hc j hj).2
+  constructor
+  · rw [← sx]
+    apply parityTo_congr
+    intro m hm
+    show (c m && ((t'.runCircuit (lcGates g.hpos g.zdiag)).row m).x j) = _
+    rw [rowx m hm]
+  · have : parityTo t.n (fun m => c m && ((t'.runCircuit (lcGates g.hpos g.zdiag)).row m).z j) =
+        xor (parityTo t.n (fun m => c m && hx g.hpos (t'.row m).z (t'.row m).x j))
+          (g.zdiag.contains j && parityTo t.n (fun m => c m && hx g.hpos (t'.row m).x (t'.row m).z j)) := by
+      rw [and_parityTo, ← parityTo_xor]
+      apply parityTo_congr
+      intro m hm
+      rw [rowz m hm]
+      cases c m <;> cases g.zdiag.contains j <;> simp
+    show parityTo t.n (fun m => c m && ((t'.runCircuit (lcGates g.hpos g.zdiag)).row m).z j) = false
+    rw [this, sx, sz]; simp
+
+/-- **`state_to_graph` depends only on the state**: two generating sets (real, commuting, independent) of the same signed group are
+    converted to the same graph with the same gate list -/
+theorem stateToGraph_gauge_indep (t t' : STab) (hn : 0 < t.n) (hg : t.Good) (hg' : t'.Good)
+    (hi : Indep (XZ.ofSTab t)) (hi' : Indep (XZ.ofSTab t')) (hs : SpanEq t t') : stateToGraph t = stateToGraph t' := by
+  have hn' : 0 < t'.n := hs.n_eq ▸ hn
+  obtain ⟨g, eg⟩ := graphFinderWith_complete gf2InvF (XZ.ofSTab t) hn (gf2InvF_ok t.n) (comm_ofSTab t hg) hi
+  obtain ⟨g', eg'⟩ := graphFinderWith_complete gf2InvF (XZ.ofSTab t') hn' (gf2InvF_ok t'.n) (comm_ofSTab t' hg') hi'
+  have hnn : (XZ.ofSTab t').n = (XZ.ofSTab t).n := hs.n_eq.symm
+  obtain ⟨ha, hp, hz⟩ := graphFinderWith_rowspace gf2InvF gf2InvF (XZ.ofSTab t) (XZ.ofSTab t') hnn
+    (fun i hi => bspan_of_spanEq t t' hs i hi)
+    (fun i hi => by
+      have := bspan_of_spanEq t' t hs.symm i (hs.n_eq ▸ hi)
+      rw [← hs.n_eq] at this
+      exact this) g g' eg eg'
+  have A := afterLC_of_spec t hg.real g (graphFinderWith_spec gf2InvF _ g eg)
+  obtain ⟨zs, ez⟩ := phaseCorrection_ok t hg hi g A
+  have A' := afterLC_of_spec t' hg'.real g' (graphFinderWith_spec gf2InvF _ g' eg')
+  obtain ⟨zs', ez'⟩ := phaseCorrection_ok t' hg' hi' g' A'
+  have ez'' : phaseCorrection t' (graphSTab t.n g.adj.f) (lcGates g.hpos g.zdiag) = .ok zs' := by
+    rw [ha, hp, hz, hs.n_eq]; exact ez'
+  have hzs := phaseCorrection_gauge t t' hg hg' hs g A zs zs' ez ez''
+  unfold stateToGraph stateToGraphWith
+  rw [eg, eg']
+  simp only
+  rw [ez, ez', ha, hp, hz, hzs]
+
 end Graphiq
